@@ -9,7 +9,7 @@ LevelBound == TLCGet("level") <= Depth
 \* one JSON line per simulated behaviour (spec -> impl replay)
 EmitAtDepth ==
     (TLCGet("level") = Depth) =>
-        PrintT(<<"REPLAY", ToJson([cfg |-> [pathReq |-> opt.pathReq, enc |-> opt.enc, jit |-> opt.jit, retention |-> Retention, window |-> Window, psk |-> pskStore, parties |-> Parties, creator |-> Creator],
+        PrintT(<<"REPLAY", ToJson([cfg |-> [pathReq |-> opt.pathReq, enc |-> opt.enc, jit |-> opt.jit, retention |-> Retention, window |-> Window, psk |-> pskStore, parties |-> Parties, creator |-> Creator, capX |-> CapX, capY |-> CapY],
                                    steps |-> [i \in 1..Len(hist) |-> hist[i] @@ [aux |-> haux[i]]]])>>)
 
 (***************************************************************************)
@@ -63,7 +63,7 @@ ValidByValue(g) ==
     \cup {[kind |-> "rem", ref |-> 0, by |-> g.leaf, target |-> l] : l \in OccupiedLeaves(g.tree) \ {g.leaf}}
     \cup (IF "psk" \in Features THEN {[kind |-> "psk", ref |-> 0, by |-> g.leaf, id |-> id] : id \in PskIds}
                                         \cup {[kind |-> "rpsk", ref |-> 0, by |-> g.leaf, epoch |-> e] : e \in 0..g.epoch} ELSE {})
-    \cup (IF "gce" \in Features THEN {[kind |-> "gce", ref |-> 0, by |-> g.leaf, ver |-> 100 + Len(commits)]} ELSE {})
+    \cup (IF "gce" \in Features THEN {[kind |-> "gce", ref |-> 0, by |-> g.leaf, ver |-> 100 + Len(commits) + 1000 * code] : code \in ReqCodes} ELSE {})
     \cup (IF "custom" \in Features THEN {[kind |-> "custom", ref |-> 0, by |-> g.leaf, ver |-> 100 + Len(commits)]} ELSE {})
 
 ValidAdds(g) == {it \in ValidByValue(g) : it.kind = "add"}
@@ -117,7 +117,7 @@ SimPropose ==
     \/ \E p \in {RParty} : \E why \in {"expired", "cred"} : GenBadKeyPackage(p, why)
     \/ \E p \in Mem : \E id \in PskIds : ProposePsk(p, id)
     \/ \E p \in Mem : \E e \in {RandomElement(0..grp[p].epoch)} : ProposeResumptionPsk(p, e)
-    \/ \E p \in Mem : ProposeGce(p)
+    \/ \E p \in Mem : \E code \in {RandomElement({c \in ReqCodes : Z = 0})} : ProposeGce(p, code)
     \/ \E p \in Mem : ProposeCustom(p)
     \/ \E p \in Mem : RandomElement(1..(4 + Z)) = 1 /\ ProposeReinit(p)
 
